@@ -42,8 +42,8 @@ T = {
  "C06b": ("C06", "notification ordering around the removal of tracked blocks", None),
  "C09a": ("C09", "an older finalized L1 block whose last info update has a higher log position than the newest finalized leaf, and a claim against a leaf newer than the one picked", "C09: aggsender monitor 'L1 info leaf index … is not below the certificate's leaf count' / proof does not verify (several leaves per L1 block with increasing positions)"),
  "C09b": ("C09", "a rollup-origin claim with leaf index >= 2", "C09: aggsender monitor 'the exit leaf does not hash with proof_leaf_ler to the stated local exit root' + claimdata correspondence; also C08 (tree scenario uses tree.CalculateRoot)"),
- "C12a": ("C12", "bridge followed by several info updates; first covering index is not the first leaf", None),
- "C12b": ("C12", "tree node storage stops early (storeNodes break)", None),
+ "C12a": ("C12", "a mainnet deposit newer than the first info leaf (the search then keeps the non-covering first leaf as its answer)", "C12: bridgeapi monitor '/l1-info-tree-index returned leaf … but that leaf's mainnet exit root covers only …' + correspondence with the modelled binary search"),
+ "C12b": ("C12", "a repeated bridge (same leaf hash) on an even deposit count whose exit root is named by an info leaf", "C12: bridgeapi monitor '/claim-proof: deposit does not hash with the returned proof to the exit root' (30% of bridges repeat an earlier one); also C08 (duplicate-leaf generator)"),
 }
 for d in sorted(os.listdir(S)):
     p = os.path.join(S, d)
